@@ -93,13 +93,17 @@ class LeanResult:
         return out
 
 
-def lake(args, timeout=3000):
-    """lake under an exclusive lock (several checks / agents may share the build dir)"""
+def lake(args, timeout=3000, before=None):
+    """lake under an exclusive lock (several checks / agents may share the build dir); `before` (e.g. the table
+    extraction) runs under the same lock so that Generated/*.lean and the build belong to the same repo tree"""
     os.makedirs(os.path.join(LEAN, '.lake'), exist_ok=True)
     with open(os.path.join(LEAN, '.lake', 'verif.lock'), 'w') as lk:
         fcntl.flock(lk, fcntl.LOCK_EX)
+        pre = before() if before is not None else None
         p = subprocess.run(['lake'] + args, cwd=LEAN, stdout=subprocess.PIPE, stderr=subprocess.STDOUT,
                            text=True, timeout=timeout)
+    if before is not None:
+        return p.returncode, p.stdout, pre
     return p.returncode, p.stdout
 
 
@@ -126,7 +130,8 @@ def lean_check(prop, thorough=False):
     r = LeanResult()
     sys.path.insert(0, os.path.join(VERIF, 'tools'))
     import extract
-    rc_all, r.extract_report = extract.main(REPO)
+    rc, log, (rc_all, r.extract_report) = lake(['build', 'Proofs.Props.' + prop, 'drv_' + prop.lower()],
+                                               before=lambda: extract.main(REPO))
     r.files = model_sources(prop)
     # an extractor that fails matters to this property only if it produces a Generated table this property imports
     needed = {m.split('.')[-1] + '.lean' for m in r.files if m.startswith('Pywbem.Generated.')}
@@ -142,7 +147,6 @@ def lean_check(prop, thorough=False):
                 r.extract_rc = 2
     r.extract_report = {k: v for k, v in r.extract_report.items()
                         if ('error' in v and r.extract_rc) or any(n in needed for n in v)}
-    rc, log = lake(['build', 'Proofs.Props.' + prop, 'drv_' + prop.lower()])
     r.build_ok = (rc == 0)
     r.build_log = log
     r.files = model_sources(prop)
